@@ -9,6 +9,11 @@ TRUST=("go/packages + go/ssa construction; the vendored x/tools interpreter's co
        "mathematical integers (no overflow); cvc5 1.0 / z3 verdicts (any unknown/error makes the run inconclusive, exit 2)")
 
 claimed={
+ "C01":{"category":"model_checking",
+   "text":"for every hand-written checker found in /repo's current tree GSX builds the checker through its real constructor (symbolic parameter values) and symbolically executes (i) one visit of its visitor on a lazily initialised AST node and (ii) its whole file walker on a small lazily initialised file, over a lazily initialised types.Info / go/types object graph; every Go run-time panic reachable within the bound is a candidate whose structural model is realised as a type-correct Go program (declarations synthesised, go/types as oracle) and replayed through the real checker natively; only reproduced panics are reported",
+   "design_ref":"DESIGN.md 3 C01",
+   "technique":"generalised symbolic execution (lazy initialisation) of go/ssa + SMT, realisation of counterexamples as Go programs + native replay",
+   "note":TRUST+"; bounds: depth K=3 (visit) / 2 (walk), lists <= 2 / 1, strings <= 8, path budget per checker (depth-first, seed-diversified; cut paths are listed in evidence as unexplored); go/ast well-formedness table generated from the go/ast sources; go/types accessors run for real over lazy objects, lazily-resolving go/types functions (Underlying of Named, Identical, Implements, Sizeof, ...) are memoised nondeterministic stubs; text of constant strings is a 2-entry menu; rule-based checkers (ruleguard engine), go/printer output and termination in general are outside"},
  "C18":{"category":"model_checking",
    "text":"GSX executes newRuleguardChecker/newErrorHandler/failOnParseError and the GroupFilter closure from SSA against nondeterministic models of filepath.Glob, os.ReadFile and ruleguard's Engine (a fault schedule: malformed / unmatched / 1-2 files per pattern; each file readable or not, loading fine, with an import fault or a DSL fault), for every failOn subset, the legacy flag, symbolic failOn tokens and symbolic group names/tags/enable/disable keys; the oracle is the statement transcribed; counterexamples are replayed by realising the schedule with real rule files and the real ruleguard loader",
    "design_ref":"DESIGN.md 3 C18",
